@@ -318,7 +318,7 @@ func (e *bincEncDriver[T]) writeNilMap() {
 }
 
 func (e *bincEncDriver[T]) writeNilBytes() {
-	e.writeNilOr(bincVdArray<<4 | uint8(0+4))
+	e.writeNilOr(bincVdByteArray<<4 | uint8(0+4)) // zero-length bytes, as EncodeStringBytesRaw writes them
 }
 
 func (e *bincEncDriver[T]) encBytesLen(c charEncoding, length uint64) {
